@@ -2278,6 +2278,15 @@ func (h *fsmHandler) loop(ctx context.Context, wg *sync.WaitGroup) {
 			break
 		}
 
+		// The outgoing connection manager reads the negotiated session
+		// parameters and handles the OPEN of its connection on its own
+		// goroutines; stateChange writes and reads the same fields when the
+		// session comes up. Nobody looks at outgoing connections in
+		// ESTABLISHED, so stop connecting before that.
+		if nextState == bgp.BGP_FSM_ESTABLISHED && fsm.outgoingConnMgr != nil {
+			fsm.outgoingConnMgr.stop()
+		}
+
 		h.fsm.stateChange(nextState, reason)
 
 		msg := &fsmMsg{
